@@ -69,6 +69,14 @@ def r03b(ck, prog):
             a0 = a.strip(casts=True)
             if a0.k == "DeclRefExpr" and a0.d.get("dk") == "Fn":
                 comps.add(a0.d["name"])
+    # the sort is unconditional: no success return of msa_sort_len_name without the qsort
+    qpos = [S.cfg.position(c) for c in S.body.calls("qsort")]
+    for r in S.success_returns():
+        if not qpos or S.cfg.reaches(None, S.cfg.position(r), avoid=qpos):
+            ck.violation("R03b", "R03b/msa_sort_len_name/conditional", site(prog, r),
+                         "msa_sort_len_name can return success without sorting: records that compare equal on the shortcut's "
+                         "criterion keep their input order", prog.config)
+    ck.inst("R03b", site(prog, S, "unconditional"), "every success return of msa_sort_len_name passes through qsort", prog.config)
     if len(comps) != 1:
         raise AnalysisBroken("R03b slot: msa_sort_len_name must pass exactly one comparator to qsort (%s)" % sorted(comps))
     C = prog.fn(comps.pop())
@@ -211,8 +219,47 @@ def r03d(ck, prog, cg, roots=("kalign_run",), rule="R03d"):
     return reach
 
 
+def r03f(ck, prog, cg):
+    """what is computed from the records before the canonical sort must not single out a prefix of the input:
+    every loop over msa->sequences in the functions that run on the unsorted msa covers [0, numseq)"""
+    from ..affine import loop_range, single_defs
+    K = prog.fn("kalign_run")
+    cfg = K.cfg
+    sorts = [cfg.position(c) for c in K.body.calls("msa_sort_len_name")]
+    pre = {c.callee for c in K.body.calls() if c.callee in cg.defined and any(cfg.reaches(cfg.position(c), s) for s in sorts)}
+    # what the readers leave behind is also computed on the caller's order
+    pre |= {"detect_alphabet", "detect_aligned", "set_sip_nsip", "merge_msa", "null_terminate_sequences"}
+    n = 0
+    for name in sorted(pre):
+        F = cg.defined.get(name)
+        if F is None:
+            continue
+        subst = single_defs(F)
+        for lp in F.body.find("ForStmt"):
+            idx = None
+            rng = loop_range(lp, subst)
+            if rng is None:
+                continue
+            var = rng[0]
+            uses = [s_ for s_ in lp.find("ArraySubscriptExpr") if s_.kids[1].strip(casts=True).text() == var and
+                    s_.kids[0].strip(casts=True).k == "MemberExpr" and s_.kids[0].strip(casts=True).d.get("field") == "sequences"]
+            if not uses:
+                continue
+            n += 1
+            lo, hi = rng[1], rng[2]
+            where = site(prog, lp, "%s loop" % name)
+            full = lo.is_const() and lo.c == 0 and hi.c == 0 and len(hi.t) == 1 and list(hi.t)[0].endswith("->numseq") and list(hi.t.values()) == [1]
+            ck.inst("R03f", where, "%s visits sequences [%s, %s) of the unsorted msa" % (name, lo, hi), prog.config)
+            if not full and name not in ("merge_msa",):
+                ck.violation("R03f", "R03f/%s/prefix" % name, where,
+                             "%s looks only at sequences [%s, %s) of the msa in the caller's order: what it computes depends on "
+                             "which records come first" % (name, lo, hi), prog.config)
+    ck.floor("R03f", n, 4, "loops over the unsorted msa")
+
+
 def run(ck, progs):
     describe(ck)
+    ck.rule("R03f", "every loop over msa->sequences that runs before the canonical sort covers all numseq records (no prefix of the input order is singled out)")
     for cfg, prog in progs.items():
         cg = CallGraph(prog)
         r03a(ck, prog)
@@ -227,6 +274,7 @@ def run(ck, progs):
                 v["key"] = v["key"].replace("R01b", "R03c")
         r03d(ck, prog, cg)
         r03e(ck, prog, cg)
+        r03f(ck, prog, cg)
     from ..controls import control_program
     cp = control_program(ck.work, "c03.c")
     from ..report import Check
